@@ -139,6 +139,19 @@ func (e *vestEnv) observe(c *fw.Case, o *txOutcome) {
 		c.ViolateD("C20/handler-panic/"+op.kind, map[string]string{"op": op.desc, "log": short(o.res.Log, 600)}, "%s: handler panicked: %s", op.kind, short(o.res.Log, 200))
 	}
 	e.checkSolvency(c, o)
+	// no message deletes a pool: a record that disappears takes its remainder with it
+	for owner, pre := range o.prePools {
+		post := map[string]bool{}
+		for _, p := range o.postPools[owner] {
+			post[p.Name] = true
+		}
+		for _, p := range pre {
+			if !post[p.Name] {
+				c.ViolateD("C06/pool-record-lost", map[string]string{"op": op.desc, "pool": fmt.Sprint(p)}, "after %s pool %s of %s (remainder %s, lock end %s) no longer exists: its remainder can never be withdrawn", op.kind, p.Name, short(owner, 12), p.locked(), fmtTime(p.LockEnd))
+				c.ViolateD("C05/pool-record-lost", map[string]string{"op": op.desc, "pool": fmt.Sprint(p)}, "after %s pool %s of %s (remainder %s) no longer exists", op.kind, p.Name, short(owner, 12), p.locked())
+			}
+		}
+	}
 	if !op.custom {
 		e.afterAccounts(o)
 		return
@@ -201,6 +214,10 @@ func (e *vestEnv) observe(c *fw.Case, o *txOutcome) {
 			msg := op.msg.(*vesttypes.MsgCreateVestingPool)
 			if p.Name != op.pool || p.IL.Cmp(op.amount) != 0 || p.W.Sign() != 0 || p.S.Sign() != 0 || !p.LockStart.Equal(o.now) || !p.LockEnd.Equal(o.now.Add(msg.Duration)) || p.Genesis {
 				c.Violate("C05/create-pool-ledger", "create-pool: new pool %+v does not match the request %s at %s", p, op.desc, fmtTime(o.now))
+			}
+			if p.Genesis {
+				// lineage (C17): only pools listed in the genesis file are genesis pools
+				c.Violate("C17/created-pool-marked-genesis", "pool %s created by a message of %s is flagged as a genesis pool", p.Name, short(op.owner, 12))
 			}
 			e.bounds = append(e.bounds, p.LockEnd)
 			for i := range pre {
